@@ -51,7 +51,10 @@ def main():
             a = np.repeat(a[:, None], nsub, axis=1)
         mark("begin-write%d" % i)
         try:
-            w.rf_write(a, g0)
+            if (sp.get("apis") or [])[i:i + 1] == ["blocks"]:
+                w.rf_write_blocks(a, [g0], [0])       # block entry point (digital_rf_write_blocks_hdf5)
+            else:
+                w.rf_write(a, g0)
             say("write%d" % i, True)
             if sp.get("sleep_ms"):
                 time.sleep(sp["sleep_ms"] / 1000.0)
